@@ -11,6 +11,7 @@ Generated (rewritten only when the content changes, so make does not rebuild nee
                    literal-block class
   ResolverTables.v saphyr/src/scalar.rs / loader.rs literal word lists
   Consts.v         numeric constants the model depends on
+  Dispatch.v       scanner.rs fetch_next_token: the `match c` arms (patterns, guards, actions) -> the decision function `dispatch`
 
 Supported Rust subset: char literals, inclusive char ranges, `== != || && !`, parentheses,
 `matches!(c, pat | ...)`, `c.is_ascii_digit()`, `(a..=b).contains(&c)`, `"lit".contains(c)`, calls to sibling
@@ -436,6 +437,225 @@ def gen_resolver(repo):
     return out
 
 
+# ---------------------------------------------------------------- the scanner's dispatcher
+DISPATCH_ACTIONS = [
+    (r"self\.fetch_flow_collection_start\(TokenType::FlowSequenceStart\)", "DFlowStart true"),
+    (r"self\.fetch_flow_collection_start\(TokenType::FlowMappingStart\)", "DFlowStart false"),
+    (r"self\.fetch_flow_collection_end\(TokenType::FlowSequenceEnd\)", "DFlowEnd true"),
+    (r"self\.fetch_flow_collection_end\(TokenType::FlowMappingEnd\)", "DFlowEnd false"),
+    (r"self\.fetch_flow_entry\(\)", "DFlowEntry"),
+    (r"self\.fetch_block_entry\(\)", "DBlockEntry"),
+    (r"self\.fetch_key\(\)", "DKey"),
+    (r"self\.fetch_value\(\)", "DValue"),
+    (r"self\.fetch_flow_value\(\)", "DFlowValue"),
+    (r"self\.fetch_anchor\(true\)", "DAnchor true"),
+    (r"self\.fetch_anchor\(false\)", "DAnchor false"),
+    (r"self\.fetch_tag\(\)", "DTag"),
+    (r"self\.fetch_block_scalar\(true\)", "DBlockScalar true"),
+    (r"self\.fetch_block_scalar\(false\)", "DBlockScalar false"),
+    (r"self\.fetch_flow_scalar\(true\)", "DFlowScalar true"),
+    (r"self\.fetch_flow_scalar\(false\)", "DFlowScalar false"),
+    (r"self\.fetch_plain_scalar\(\)", "DPlain"),
+    (r"Err\(ScanError::new\(\s*self\.mark,\s*format!\(\"unexpected character: `\{c\}'\"\),?\s*\)\)", "DUnexpected"),
+]
+DISPATCH_ATOMS = [
+    (r"is_blank_or_breakz\(nc\)", "is_blank_or_breakz nc"),
+    (r"is_flow\(nc\)", "is_flow nc"),
+    (r"self\.flow_level > 0", "fl"),
+    (r"self\.flow_level == 0", "negb fl"),
+    (r"self\.mark\.index == self\.adjacent_value_allowed_at", "adj"),
+]
+
+
+def dispatch_guard(g):
+    """guard of a match arm -> Coq bool expression over nc, fl (flow_level > 0), adj (index == adjacent_value_allowed_at)"""
+    toks = []
+    i = 0
+    g = g.strip()
+    while i < len(g):
+        if g[i].isspace():
+            i += 1
+            continue
+        for op in ("&&", "||", "!", "(", ")"):
+            if g.startswith(op, i) and not (op == "!" and g.startswith("!=", i)):
+                toks.append(op)
+                i += len(op)
+                break
+        else:
+            for pat, coq in DISPATCH_ATOMS:
+                m = re.match(pat, g[i:])
+                if m:
+                    toks.append(("atom", coq))
+                    i += len(m.group(0))
+                    break
+            else:
+                raise TranslateError("dispatcher guard atom at %r" % g[i:i + 50])
+    pos = [0]
+
+    def peek():
+        return toks[pos[0]] if pos[0] < len(toks) else None
+
+    def eat():
+        pos[0] += 1
+        return toks[pos[0] - 1]
+
+    def p_or():
+        a = p_and()
+        while peek() == "||":
+            eat()
+            a = "(%s || %s)" % (a, p_and())
+        return a
+
+    def p_and():
+        a = p_not()
+        while peek() == "&&":
+            eat()
+            a = "(%s && %s)" % (a, p_not())
+        return a
+
+    def p_not():
+        t = peek()
+        if t == "!":
+            eat()
+            return "negb (%s)" % p_not()
+        if t == "(":
+            eat()
+            a = p_or()
+            if eat() != ")":
+                raise TranslateError("dispatcher guard: ')' expected")
+            return a
+        if isinstance(t, tuple):
+            eat()
+            return "(%s)" % t[1]
+        raise TranslateError("dispatcher guard: unexpected %r" % (t,))
+    e = p_or()
+    if pos[0] != len(toks):
+        raise TranslateError("dispatcher guard: trailing tokens in %r" % g)
+    return e
+
+
+def gen_dispatch(repo):
+    """Scanner::fetch_next_token: the `match c { ... }` that decides, from the next two characters, the flow level and
+    the adjacent-value position, which fetch_* function runs.  Rust `match` takes the FIRST arm whose pattern and guard
+    hold, so the arms become a Coq if-chain in source order."""
+    s = strip_comments(read(os.path.join(repo, "parser/src/scanner.rs")))
+    m = re.search(r"pub fn fetch_next_token\(&mut self\) -> ScanResult \{", s)
+    if not m:
+        raise TranslateError("fetch_next_token not found")
+    body = s[m.end():]
+    m2 = re.search(r"let c = self\.input\.peek\(\);\s*let nc = self\.input\.peek_nth\(1\);\s*match c \{", body)
+    if not m2:
+        raise TranslateError("fetch_next_token: `let c = peek(); let nc = peek_nth(1); match c {` not found")
+    i = m2.end()
+    depth, j = 1, i
+    while depth:
+        ch = body[j]
+        if ch == "'":                       # skip a char literal (it may be '{' or '}')
+            mm = re.match(CHAR, body[j:])
+            if not mm:
+                raise TranslateError("dispatcher: char literal at %r" % body[j:j + 10])
+            j += len(mm.group(0))
+            continue
+        if ch == '"':
+            mm = re.match(r'"(?:\\.|[^"\\])*"', body[j:])
+            j += len(mm.group(0))
+            continue
+        depth += ch == "{"
+        depth -= ch == "}"
+        j += 1
+    arms_src = body[i:j - 1]
+    # split into arms: pattern [if guard] => action (a block or an expression up to the ',' at depth 0)
+    arms = []
+    k = 0
+    n = len(arms_src)
+    while True:
+        while k < n and arms_src[k].isspace():
+            k += 1
+        if k >= n:
+            break
+        # pattern
+        pats = []
+        while True:
+            mm = re.match(r"\s*" + CHAR, arms_src[k:])
+            if mm:
+                pats.append(char_lit(mm.group(1)))
+                k += len(mm.group(0))
+            else:
+                mm = re.match(r"\s*_", arms_src[k:])
+                if not mm:
+                    raise TranslateError("dispatcher: pattern at %r" % arms_src[k:k + 40])
+                pats = None
+                k += len(mm.group(0))
+            mm = re.match(r"\s*\|(?!\|)", arms_src[k:])
+            if mm and pats is not None:
+                k += len(mm.group(0))
+                continue
+            break
+        guard = None
+        mm = re.match(r"\s*if\b", arms_src[k:])
+        if mm:
+            k += len(mm.group(0))
+            e = arms_src.index("=>", k)
+            guard = arms_src[k:e]
+            k = e
+        mm = re.match(r"\s*=>\s*", arms_src[k:])
+        if not mm:
+            raise TranslateError("dispatcher: '=>' expected at %r" % arms_src[k:k + 40])
+        k += len(mm.group(0))
+        # action
+        if arms_src[k] == "{":
+            d, e = 1, k + 1
+            while d:
+                d += arms_src[e] == "{"
+                d -= arms_src[e] == "}"
+                e += 1
+            action = arms_src[k + 1:e - 1].strip()
+            k = e
+            mm = re.match(r"\s*,", arms_src[k:])
+            if mm:
+                k += len(mm.group(0))
+        else:
+            d, e = 0, k
+            while e < n and not (arms_src[e] == "," and d == 0):
+                if arms_src[e] == "`":                     # the message text `{c}'
+                    pass
+                d += arms_src[e] in "({["
+                d -= arms_src[e] in ")}]"
+                e += 1
+            action = arms_src[k:e].strip()
+            k = e + 1
+        act = None
+        for pat, coq in DISPATCH_ACTIONS:
+            if re.fullmatch(pat, action):
+                act = coq
+                break
+        if act is None:
+            raise TranslateError("dispatcher: action %r" % action[:80])
+        arms.append((pats, dispatch_guard(guard) if guard is not None else None, act))
+    if not arms or arms[-1][0] is not None or arms[-1][1] is not None:
+        raise TranslateError("dispatcher: the last arm must be the unguarded wildcard")
+    out = HEADER % "parser/src/scanner.rs (Scanner::fetch_next_token, the `match c` dispatcher)"
+    out += "Require Import CharTraits.\n"
+    out += ("Inductive dact := DFlowStart (seq : bool) | DFlowEnd (seq : bool) | DFlowEntry | DBlockEntry | DKey | DValue\n"
+            "  | DFlowValue | DAnchor (alias : bool) | DTag | DBlockScalar (literal : bool) | DFlowScalar (single : bool) | DPlain\n"
+            "  | DUnexpected.\n\n")
+    out += "(* c, nc: the next two characters; fl: flow_level > 0; adj: mark.index == adjacent_value_allowed_at *)\n"
+    out += "Definition dispatch (c nc : N) (fl adj : bool) : dact :=\n"
+    for pats, guard, act in arms[:-1]:
+        if pats is None:
+            cond = "true"
+        else:
+            cond = " || ".join("(c =? %d)" % p for p in pats)
+            if len(pats) > 1:
+                cond = "(%s)" % cond
+        if guard is not None:
+            cond = "%s && %s" % (cond, guard)
+        out += "  if %s then %s else\n" % (cond, act)
+    out += "  %s.\n" % arms[-1][2]
+    out += "\nDefinition dispatch_arms : nat := %d.\n" % len(arms)
+    return out
+
+
 def gen_consts(repo):
     out = HEADER % "parser/src/input/buffered.rs, parser/src/scanner.rs, saphyr/src/encoding.rs"
     b = read(os.path.join(repo, "parser/src/input/buffered.rs"))
@@ -479,7 +699,7 @@ def main():
     repo, outdir = sys.argv[1], sys.argv[2]
     os.makedirs(outdir, exist_ok=True)
     gens = [("CharTraits.v", gen_char_traits), ("Escapes.v", gen_escapes), ("EmitterTables.v", gen_emitter),
-            ("ResolverTables.v", gen_resolver), ("Consts.v", gen_consts)]
+            ("ResolverTables.v", gen_resolver), ("Consts.v", gen_consts), ("Dispatch.v", gen_dispatch)]
     rc = 0
     for fname, fn in gens:
         try:
